@@ -20,6 +20,8 @@ type RxOpt struct {
 	// NoCasePairs: no letter occurs in both cases anywhere (open known finding D20: a class that is
 	// exactly a case-fold orbit, e.g. `[aA]`, is printed by the engine as `(?i:A)` and loses the flag)
 	NoCasePairs bool
+	// NoQuoteAfterBackslash: never put a double quote directly after a literal backslash (open known finding D4)
+	NoQuoteAfterBackslash bool
 	MaxDepth   int
 }
 
@@ -116,9 +118,36 @@ func rxConcat(t *rapid.T, o RxOpt, depth int) string {
 		if rapid.IntRange(0, 3).Draw(t, "q?") == 0 && quantifiable(a) {
 			a += rapid.SampledFrom(quantifiers).Draw(t, "quant")
 		}
+		if o.NoQuoteAfterBackslash && endsInLiteralBackslash(sb.String()) && (strings.HasPrefix(a, `"`) || strings.HasPrefix(a, `\"`)) {
+			sb.WriteString("x")
+		}
 		sb.WriteString(a)
 	}
 	return sb.String()
+}
+
+func endsInLiteralBackslash(s string) bool {
+	if strings.HasSuffix(s, `\x5c`) {
+		return true
+	}
+	n := 0
+	for i := len(s) - 1; i >= 0 && s[i] == '\\'; i-- {
+		n++
+	}
+	return n > 0 && n%2 == 0
+}
+
+// D4Shape reports whether the text has a double quote directly after a literal backslash.
+func D4Shape(s string) bool {
+	for i := 0; i < len(s); i++ {
+		if s[i] == '"' && endsInLiteralBackslash(s[:i]) {
+			return true
+		}
+		if s[i] == '\\' && i+1 < len(s) && s[i+1] == '"' && endsInLiteralBackslash(s[:i]) {
+			return true
+		}
+	}
+	return false
 }
 
 // quantifiable: a quantifier may follow (not after an anchor / empty / something ending in a quantifier).
@@ -156,6 +185,9 @@ func rxAtom(t *rapid.T, o RxOpt, depth int) string {
 				continue
 			}
 			if o.Lower && CaseOpenNegated(a) {
+				continue
+			}
+			if o.NoQuoteAfterBackslash && D4Shape(a) {
 				continue
 			}
 			return a
